@@ -211,6 +211,23 @@ inline void O9(int p, Res& r) {
    )
 }
 
+// O10: "sparse" THDM points: every optional input at its zero/default value (lambda_6 = lambda_7 = 0, no zeta/Delta/Pi,
+// p = 0: type I, exact alignment sin(beta-alpha) = 1; p = 1: type X, m12^2 = 0, other SM inputs).  After a "dense" point
+// (O2/O5/O8) nothing of the earlier point may survive in an entry that the sparse point leaves at zero.
+inline void O10(int p, Res& r) {
+   GUARDED(
+      thdm::Mass_basis b;
+      b.yukawa_type = p ? thdm::Yukawa_type::type_X : thdm::Yukawa_type::type_1;
+      b.mh = 125; b.mH = p ? 280 : 350; b.mA = p ? 310 : 300; b.mHp = p ? 330 : 360;
+      b.sin_beta_minus_alpha = p ? 0.98 : 1.0; b.tan_beta = p ? 15 : 2;
+      b.m122 = p ? 0 : 300. * 300 * 2 / 5; b.lambda_6 = 0; b.lambda_7 = 0;
+      SM sm;
+      if (p) { sm.set_mw(80.4335); sm.set_mz(91.19); sm.set_mh(130.0); sm.set_alpha_em_mz(1 / 128.9); sm.set_mu(2, 172.5); sm.set_ml(2, 1.77686); }
+      THDM m(b, sm); eval_thdm(m, r); r.txt = text(m);
+      THDM c(m); Res rc; eval_thdm(c, rc); r.v.insert(r.v.end(), rc.v.begin(), rc.v.end());
+   )
+}
+
 static const Op OPS[] = {
    {"O1_mssm_gm2calc_build_eval", O1, false},
    {"O2_thdm_build_eval", O2, false},
@@ -221,6 +238,7 @@ static const Op OPS[] = {
    {"O7_slha_parse_fill", O7, false},
    {"O8_thdm_slha_parse_build_eval", O8, false},
    {"O9_mssm_non_resummed_copy", O9, true},
+   {"O10_thdm_sparse_build_eval", O10, false},
 };
 static const int NOPS = sizeof(OPS) / sizeof(OPS[0]);
 
